@@ -198,8 +198,59 @@ def run(rep: Report, ctx: Any) -> str:
         rep.check(REPR_OF_ESC not in pc.labels, "R05.4", line_key,
                   "repr() is applied to text that was already escaped: the run-time value differs from the document's",
                   where=where, lhs=sorted(pc.labels), rhs="no REPR_OF_ESC")
+    _document_models_keep_text(rep, ix)
     rep.not_decided += ["nothing about run-time values is needed; residual trust is the admission table and the transfer functions"]
     return LEVEL
+
+
+# pydantic configuration switches that rewrite or reject string values while the document is decoded, before any parser code sees them
+REWRITING_MODEL_OPTIONS = {
+    "str_strip_whitespace": "leading / trailing whitespace of every string field and mapping key is dropped",
+    "str_to_lower": "every string is lower-cased",
+    "str_to_upper": "every string is upper-cased",
+    "str_max_length": "strings longer than the limit are rejected",
+    "str_min_length": "strings shorter than the limit are rejected",
+    "coerce_numbers_to_str": "numbers are turned into text",
+    "alias_generator": "field names are rewritten by a function",
+}
+
+
+def _document_models_keep_text(rep: Report, ix: Any) -> None:
+    """R05.7: text that is meaningful at run time is reproduced character for character - the document model may not rewrite it while
+    decoding.  Every class of the schema package is inspected: `model_config = ConfigDict(...)` / a dict / `class Config:` may not
+    switch on an option that rewrites strings (frozen table above: the options pydantic v2 documents as doing so)."""
+    rep.rule("R05.7", "no class of the document model (schema package) switches on a pydantic option that rewrites or filters string values "
+                      "while the document is decoded (str_strip_whitespace, str_to_lower / upper, str length limits, number-to-string "
+                      "coercion, alias generators): names, consts and keys reach the parser as the document spells them")
+    n = 0
+    for c in ix.classes.values():
+        if ".schema." not in c.module.name + ".":
+            continue
+        settings: list[tuple[str, ast.expr, ast.AST]] = []
+        for st in c.node.body:
+            if isinstance(st, (ast.Assign, ast.AnnAssign)) and st.value is not None:
+                tg = st.targets[0] if isinstance(st, ast.Assign) else st.target
+                if isinstance(tg, ast.Name) and tg.id == "model_config":
+                    v = st.value
+                    if isinstance(v, ast.Call):
+                        settings += [(k.arg, k.value, st) for k in v.keywords if k.arg]
+                        if any(k.arg is None for k in v.keywords):
+                            settings.append(("**", ast.Constant(value=True), st))
+                    elif isinstance(v, ast.Dict):
+                        settings += [(k.value, val, st) for k, val in zip(v.keys, v.values) if isinstance(k, ast.Constant) and isinstance(k.value, str)]
+                    n += 1
+            elif isinstance(st, ast.ClassDef) and st.name == "Config":
+                for s2 in st.body:
+                    if isinstance(s2, ast.Assign) and len(s2.targets) == 1 and isinstance(s2.targets[0], ast.Name):
+                        settings.append((s2.targets[0].id, s2.value, s2))
+                n += 1
+        bad = sorted(k for k, v, _ in settings if (k in REWRITING_MODEL_OPTIONS or k == "**")
+                     and not (isinstance(v, ast.Constant) and v.value in (False, None)))
+        if settings or bad:
+            rep.check(not bad, "R05.7", f"{c.qual.replace(PKG + '.', '')}::model_config",
+                      "the document model rewrites text before the parser sees it: " + "; ".join(f"{k}: {REWRITING_MODEL_OPTIONS.get(k, 'options not enumerable')}" for k in bad),
+                      where=f"{c.module.rel}:{c.node.lineno}", lhs=sorted({k for k, _, _ in settings}), rhs="no text-rewriting option")
+    rep.floor("document_model_configs", n, 10)
 
 
 def _norm_ctor(ix: Any, where: str) -> str:
